@@ -1856,6 +1856,114 @@ func (g *shpGen) scenario(which int) *shpCase {
 	return c
 }
 
+// ---------------------------------------------------------------- family: trailing skipped glyphs
+//
+// For every contextual format (SeqContext1/2/3, ChainedSeqContext1/2/3): a parent rule "A A"
+// (chained: followed by C) under a flag word F1 that skips some marks, with `bt` skipped glyphs
+// between the two input glyphs and `tr` skipped glyphs right behind the last one (before the
+// lookahead glyph), and a nested lookup under DIFFERENT flags F2 (which keep that mark) applied
+// at the last input glyph that consumes or rewrites the trailing skipped glyph:
+//
+//	kind 0: ligature  A m -> B   (kind 0 with tr = 2 also offers  A m m -> L first)
+//	kind 1: child context "A m" -> single substitution of m
+//	kind 2: child context "A m" -> multiple substitution of m
+//
+// The nested lookup can reach the trailing glyph only because the window of the parent match
+// (EndPos) extends over the skipped glyphs that follow the last input glyph (testcases 2_08).
+// variants: 0: F1 = IgnoreMarks, F2 = 0, m = 10;  1: F1 = attachment type 1, F2 = attachment type
+// 2, m = 11;  2: F1 = mark filtering set 0 = {10}, F2 = 0, m = 12.
+var shpTrailingFormats = []int{51, 52, 53, 61, 62, 63}
+
+const shpTrailingCount = 6 * 3 * 2 * 3 * 3
+
+func shpTrailingCase(idx int) (*shpCase, string) {
+	format := shpTrailingFormats[idx%6]
+	idx /= 6
+	tr := idx % 3
+	idx /= 3
+	bt := idx % 2
+	idx /= 2
+	kind := idx % 3
+	idx /= 3
+	variant := idx % 3
+	const A, B, C, L, M, M2, M3 = 1, 2, 3, 7, 10, 11, 12
+	gd := &gdef.Table{
+		GlyphClass: classdef.Table{A: gdef.GlyphClassBase, B: gdef.GlyphClassBase, C: gdef.GlyphClassBase, L: gdef.GlyphClassLigature,
+			M: gdef.GlyphClassMark, M2: gdef.GlyphClassMark, M3: gdef.GlyphClassMark},
+		MarkAttachClass: classdef.Table{M: 1, M2: 2, M3: 1},
+		MarkGlyphSets:   []coverage.Set{{M: true}},
+	}
+	var f1, f2 gtab.LookupFlags
+	var m glyph.ID
+	switch variant {
+	case 0:
+		f1, f2, m = gtab.IgnoreMarks, 0, M
+	case 1:
+		f1, f2, m = gtab.LookupFlags(1<<8), gtab.LookupFlags(2<<8), M2
+	default:
+		f1, f2, m = gtab.UseMarkFilteringSet, 0, M3
+	}
+	acts := []gtab.SeqLookup{{SequenceIndex: 1, LookupListIndex: gtab.LookupIndex(1 + kind)}}
+	cd := classdef.Table{A: 1, C: 2}
+	var parent gtab.Subtable
+	tp := uint16(5)
+	switch format {
+	case 51:
+		parent = &gtab.SeqContext1{Cov: coverage.Table{A: 0}, Rules: [][]*gtab.SeqRule{{{Input: []glyph.ID{A}, Actions: acts}}}}
+	case 52:
+		parent = &gtab.SeqContext2{Cov: coverage.Table{A: 0}, Input: cd, Rules: [][]*gtab.ClassSeqRule{{}, {{Input: []uint16{1}, Actions: acts}}}}
+	case 53:
+		parent = &gtab.SeqContext3{Input: []coverage.Set{{A: true}, {A: true}}, Actions: acts}
+	case 61:
+		tp = 6
+		parent = &gtab.ChainedSeqContext1{Cov: coverage.Table{A: 0}, Rules: [][]*gtab.ChainedSeqRule{{{Input: []glyph.ID{A}, Lookahead: []glyph.ID{C}, Actions: acts}}}}
+	case 62:
+		tp = 6
+		parent = &gtab.ChainedSeqContext2{Cov: coverage.Table{A: 0}, Backtrack: cd, Input: cd, Lookahead: cd,
+			Rules: [][]*gtab.ChainedClassSeqRule{{}, {{Input: []uint16{1}, Lookahead: []uint16{2}, Actions: acts}}}}
+	default:
+		tp = 6
+		parent = &gtab.ChainedSeqContext3{Input: []coverage.Set{{A: true}, {A: true}}, Lookahead: []coverage.Set{{C: true}}, Actions: acts}
+	}
+	lk := func(tp uint16, fl gtab.LookupFlags, st ...gtab.Subtable) *gtab.LookupTable {
+		return &gtab.LookupTable{Meta: &gtab.LookupMetaInfo{LookupType: tp, LookupFlags: fl}, Subtables: st}
+	}
+	ligs := []gtab.Ligature{{In: []glyph.ID{m}, Out: B}}
+	if tr == 2 {
+		ligs = []gtab.Ligature{{In: []glyph.ID{m, m}, Out: L}, {In: []glyph.ID{m}, Out: B}}
+	}
+	child := func(target gtab.LookupIndex) gtab.Subtable {
+		return &gtab.SeqContext1{Cov: coverage.Table{A: 0}, Rules: [][]*gtab.SeqRule{{{Input: []glyph.ID{m},
+			Actions: []gtab.SeqLookup{{SequenceIndex: 1, LookupListIndex: target}}}}}}
+	}
+	ll := gtab.LookupList{
+		lk(tp, f1, parent),
+		lk(4, f2, &gtab.Gsub4_1{Cov: coverage.Table{A: 0}, Repl: [][]gtab.Ligature{ligs}}),
+		lk(5, f2, child(4)),
+		lk(5, f2, child(5)),
+		lk(1, 0, &gtab.Gsub1_2{Cov: coverage.Table{m: 0}, SubstituteGlyphIDs: []glyph.ID{L}}),
+		lk(2, 0, &gtab.Gsub2_1{Cov: coverage.Table{m: 0}, Repl: [][]glyph.ID{{m, B, m}}}),
+	}
+	if variant == 2 {
+		ll[0].Meta.MarkFilteringSet = 0
+	}
+	gids := []glyph.ID{A}
+	for i := 0; i < bt; i++ {
+		gids = append(gids, m)
+	}
+	gids = append(gids, A)
+	for i := 0; i < tr; i++ {
+		gids = append(gids, m)
+	}
+	gids = append(gids, C, A)
+	seq := make([]glyph.Info, len(gids))
+	for i, x := range gids {
+		seq[i] = glyph.Info{GID: x, Text: []rune{rune(97 + i)}}
+	}
+	c := &shpCase{ll: ll, gd: gd, lookups: []gtab.LookupIndex{0}, hist: [][]glyph.Info{seq}}
+	return c, fmt.Sprintf("format %d, %d trailing, %d between, nested kind %d, flags variant %d", format, tr, bt, kind, variant)
+}
+
 func shpLen(c *shpCase) int {
 	n := 0
 	for _, s := range c.hist {
@@ -1979,6 +2087,12 @@ var shpDebug = false
 func areaShape(c *Ctx) {
 	g := &shpGen{r: c.Rng, c: c}
 	r := c.Rng
+	// the whole family "trailing skipped glyphs consumed by a nested lookup", every run
+	for i := 0; i < shpTrailingCount; i++ {
+		sc, what := shpTrailingCase(i)
+		c.Stat("obligation: trailing skipped glyphs (format)", what[:9])
+		g.emit(sc, "trailing skipped family")
+	}
 	for c.evals < c.N && timeouts < maxTimeouts {
 		g.wild = false
 		g.gpos = false
